@@ -287,30 +287,13 @@ func (te *TemplateEngine) parseTemplate(template *Template) error {
 		baseName := extendsMatches[1]
 		baseTemplate, err := te.getTemplateInternal(baseName)
 		if err == nil {
+			// 只记录继承关系。块重写在渲染子模板时解析（见 renderTemplateWithOverrides），
+			// 加载子模板不修改父模板：父模板及其它子模板的渲染结果保持不变。
 			template.Parent = baseTemplate
-			// 处理块重写
-			te.processBlockOverrides(template, baseTemplate)
 		}
 	}
 
 	return nil
-}
-
-// processBlockOverrides 处理块重写
-func (te *TemplateEngine) processBlockOverrides(childTemplate, parentTemplate *Template) {
-	// 遍历子模板的块定义，检查是否重写父模板的块
-	for blockName, childBlock := range childTemplate.DefinedBlocks {
-		if parentBlock, exists := parentTemplate.DefinedBlocks[blockName]; exists {
-			// 标记父模板块被重写
-			parentBlock.IsOverridden = true
-			parentBlock.Content = childBlock.Content
-		}
-	}
-
-	// 递归处理父模板的父模板
-	if parentTemplate.Parent != nil {
-		te.processBlockOverrides(childTemplate, parentTemplate.Parent)
-	}
 }
 
 // RenderToDocument 渲染模板到新文档
@@ -351,12 +334,27 @@ func (te *TemplateEngine) RenderToDocument(templateName string, data *TemplateDa
 
 // renderTemplate 渲染模板
 func (te *TemplateEngine) renderTemplate(template *Template, data *TemplateData) (string, error) {
+	return te.renderTemplateWithOverrides(template, data, nil)
+}
+
+// renderTemplateWithOverrides 渲染模板。overrides 是派生模板重写的块（最派生的模板优先），
+// 只在本次渲染中生效，不写入任何已加载的模板。
+func (te *TemplateEngine) renderTemplateWithOverrides(template *Template, data *TemplateData, overrides map[string]*TemplateBlock) (string, error) {
 	var content string
 
 	// 处理继承：如果有父模板，使用父模板作为基础
 	if template.Parent != nil {
+		// 合并块重写：派生模板的块优先于当前模板自己的块
+		merged := make(map[string]*TemplateBlock, len(template.DefinedBlocks)+len(overrides))
+		for blockName, block := range template.DefinedBlocks {
+			merged[blockName] = block
+		}
+		for blockName, block := range overrides {
+			merged[blockName] = block
+		}
+
 		// 渲染父模板作为基础内容
-		parentContent, err := te.renderTemplate(template.Parent, data)
+		parentContent, err := te.renderTemplateWithOverrides(template.Parent, data, merged)
 		if err != nil {
 			return "", err
 		}
@@ -370,7 +368,7 @@ func (te *TemplateEngine) renderTemplate(template *Template, data *TemplateData)
 	}
 
 	// 渲染块定义
-	content = te.renderBlocks(content, template, data)
+	content = te.renderBlocks(content, template, overrides)
 
 	// 渲染变量
 	content = te.renderVariables(content, data.Variables)
@@ -405,8 +403,8 @@ func (te *TemplateEngine) applyBlockOverrides(content string, template *Template
 	})
 }
 
-// renderBlocks 渲染块定义
-func (te *TemplateEngine) renderBlocks(content string, template *Template, data *TemplateData) string {
+// renderBlocks 渲染块定义（overrides: 派生模板对本模板块的重写）
+func (te *TemplateEngine) renderBlocks(content string, template *Template, overrides map[string]*TemplateBlock) string {
 	blockPattern := regexp.MustCompile(`(?s)\{\{#block\s+"([^"]+)"\}\}(.*?)\{\{/block\}\}`)
 
 	return blockPattern.ReplaceAllStringFunc(content, func(match string) string {
@@ -414,6 +412,11 @@ func (te *TemplateEngine) renderBlocks(content string, template *Template, data 
 		if len(matches) >= 3 {
 			blockName := matches[1]
 			blockContent := matches[2]
+
+			// 派生模板重写了这个块：使用重写的内容
+			if override, exists := overrides[blockName]; exists {
+				return override.Content
+			}
 
 			// 检查是否有定义的块
 			if block, exists := template.DefinedBlocks[blockName]; exists {
@@ -2969,6 +2972,15 @@ func (te *TemplateEngine) createImageParagraph(imageData *TemplateImageData, doc
 			Position:  ImagePositionInline,
 			Alignment: AlignCenter,
 		}
+	} else {
+		// 使用配置的副本：下面的 SetImageAltText/SetImageTitle 会写入配置，
+		// 渲染不应修改调用方提供的模板数据（同一个配置可能被多张图片共用）
+		configCopy := *config
+		if config.Size != nil {
+			sizeCopy := *config.Size
+			configCopy.Size = &sizeCopy
+		}
+		config = &configCopy
 	}
 
 	// 添加图片到文档
